@@ -212,7 +212,7 @@ def opOf (s : String) : Spec.Op :=
 def outOf (s : String) : Spec.Out :=
   match s with
   | "acquired" => .acquired
-  | "not-obtained" => .refused | "locked" => .refused | "timeout" => .refused
+  | "not-obtained" => .refused | "locked" => .refused | "timeout" => .refused | "session-expired" => .refused
   | "blocked" => .blocked | "ctx-live" => .ctxLive | "ctx-session-done" => .ctxDone | "ctx-cancelled" => .ctxPlain
   | _ => .other
 
